@@ -29,7 +29,8 @@ pub struct Names {
 
 fn act_name(rng: &mut Rng, k: usize) -> String {
     // names whose sorted order differs from the listed order
-    let pool = ["raise", "call", "fold", "bet", "check", "x", "a b", "Z", "07", "7"];
+    // (two of them need escaping inside a quoted string, in JSON and in Gambit files alike)
+    let pool = ["raise", "call", "fold", "bet", "check", "x", "a b", "Z", "07", "7", "say \"hi\"", "b\\s"];
     format!("{}{}", pool[(rng.below(pool.len() as u64) as usize + k * 3) % pool.len()], k)
 }
 
@@ -63,7 +64,13 @@ pub fn name_game(rng: &mut Rng, t: &T) -> (NG, Names) {
                 if !names.info[p].contains_key(i) {
                     let unnamed = rng.chance(0.3);
                     // gambit infoset numbers are i + 1; an unnamed infoset is called by its number
-                    let nm = if unnamed { format!("{}", i + 1) } else { format!("I{}-{}", p + 1, i) };
+                    // (one name in five carries a quote or a backslash, written escaped in the files)
+                    let tail = match rng.below(10) {
+                        0 => "\"q",
+                        1 => "\\",
+                        _ => "",
+                    };
+                    let nm = if unnamed { format!("{}", i + 1) } else { format!("I{}-{}{}", p + 1, i, tail) };
                     names.info[p].insert(*i, (nm.clone(), if unnamed { None } else { Some(nm) }));
                 }
                 let mut out = Vec::new();
@@ -1271,7 +1278,7 @@ pub fn c17(ctx: &mut Ctx) -> String {
         let good = if gambit { to_efg_file(&mut nrng, &ng, &names, k, false, &EfgFeat::default()).text } else { to_json_file(&ng, &names) };
         // (corrupted text, expected diagnostic category, "" when only rejection is required,
         //  "accept" when the text is a valid game)
-        let kind = ctx.rng.below(if gambit { 22 } else { 13 });
+        let kind = ctx.rng.below(if gambit { 22 } else { 15 });
         let mut other_format = false;
         let (bad, what, expect): (String, &str, &str) = if !gambit {
             match kind {
@@ -1285,6 +1292,8 @@ pub fn c17(ctx: &mut Ctx) -> String {
                 7 => ("[1, 2, 3]".to_string(), "not-an-object", "json-error"),
                 8 => (good.replacen("\"infoset\": \"", "\"infoset\": 5, \"x\": \"", 1), "wrong-type-infoset", "json-error"),
                 9 => (drop_first_state(&good), "dropped-field-state", "json-error"),
+                // every weight negated: the normalised "probabilities" would all be positive again
+                13 | 14 => (good.replace("\"prob\": ", "\"prob\": -"), "all-probabilities-negated", "game-error"),
                 10 | 11 => {
                     // a complete valid document followed by bytes that are not white space
                     let tail = *ctx.rng.pick(&["}", " ]", ",", "\n{\"terminal\": 0.0}", " x", "\n0", " \"", "\t}}", " {\"terminal\": 0.0", "null"]);
@@ -1405,11 +1414,21 @@ pub fn c17(ctx: &mut Ctx) -> String {
 
 /// give an infoset of player two the name of an infoset of player one (allowed: names are per player)
 fn cross_player_name(s: &str) -> String {
+    // the quoted token starting at `tag` (escapes inside it respected)
     let find = |tag: &str| -> Option<String> {
         let i = s.find(tag)?;
         let rest = &s[i + 1..];
-        let j = rest.find('"')?;
-        Some(rest[..j].to_string())
+        let mut esc = false;
+        for (j, c) in rest.char_indices() {
+            if esc {
+                esc = false;
+            } else if c == '\\' {
+                esc = true;
+            } else if c == '"' {
+                return Some(rest[..j].to_string());
+            }
+        }
+        None
     };
     match (find("\"I1-"), find("\"I2-")) {
         (Some(a), Some(b)) => s.replace(&format!("\"{}\"", b), &format!("\"{}\"", a)),
